@@ -429,3 +429,162 @@ def yields_checked_for_terminal(repo: Repo, module: str, cls, method: str, test_
                                       "the first terminal one" if good else
                                       (f"yield at line(s) {bad} is not followed, in its loop body, by `if ...{test_suffix}"
                                        f"(<that event>): return`" if ys else "no yield found")), fi.lineno)]
+
+
+def exclusive_resolution_structure(repo: Repo, module: str = "workflows.resource", cls: str = "ResourceManager",
+                                   step_module: str = "workflows.runtime.types.step_function"):
+    """C22: who may be inside a dependency resolution.  The manager's bookkeeping (`_resolving`, `_resolution_cache`,
+    `_resolution_depth`) describes ONE resolution; the contracts of `_get` / `resolution_scope` are sequential.  These
+    obligations say that the code reaches them only under the manager's lock, re-entrantly only for the owning task."""
+    m = repo.module(module)
+    ci = m.classes[cls]
+    out = []
+    P = f"{module}.{cls}"
+
+    def src(n):
+        return ast.unparse(n)
+
+    def ancestors(n, par):
+        while n in par:
+            n = par[n]
+            yield n
+
+    ex = ci.methods.get("exclusive_resolution")
+    if ex is None:
+        return [ob(f"{P}.exclusive_resolution/exists", False, "the exclusive section of the manager is gone")]
+    par = parents(ex.node)
+    LOCK, SCOPE = "self._resolution_lock()", "self.resolution_scope()"
+    task_names = {t.id for n in ast.walk(ex.node) if isinstance(n, ast.Assign) and src(n.value) == "asyncio.current_task()"
+                  for t in n.targets if isinstance(t, ast.Name)}
+
+    def reentry_test(test):
+        """`<task> is not None and self._owner is <task>` (either order)"""
+        if not (isinstance(test, ast.BoolOp) and isinstance(test.op, ast.And) and len(test.values) == 2):
+            return False
+        parts = {src(v) for v in test.values}
+        return any(parts == {f"{t} is not None", f"self._owner is {t}"} for t in task_names)
+
+    yields = [n for n in ast.walk(ex.node) if isinstance(n, (ast.Yield, ast.YieldFrom))]
+    out.append(ob(f"{P}.exclusive_resolution/two-entries", len(yields) == 2,
+                  f"{len(yields)} yield(s): one for the re-entering owner, one under the lock"))
+    for y in yields:
+        anc = list(ancestors(y, par))
+        ifs = [a for a in anc if isinstance(a, ast.If)]
+        in_reentry = any(reentry_test(a.test) and any(y is d or y in ast.walk(d) for d in a.body) for a in ifs)
+        if in_reentry:
+            out.append(ob(f"{P}.exclusive_resolution/reentry-by-task-identity@L{y.lineno}", True,
+                          "the lock-free entry is taken only when the CURRENT task is the recorded owner", y.lineno))
+            continue
+        # the locked entry: async with LOCK  >  try/finally(owner = None)  >  with SCOPE  >  yield
+        idx = {}
+        for i, a in enumerate(anc):  # innermost first
+            if isinstance(a, ast.AsyncWith) and any(src(it.context_expr) == LOCK for it in a.items):
+                idx.setdefault("lock", i)
+            if isinstance(a, ast.With) and any(src(it.context_expr) == SCOPE for it in a.items):
+                idx.setdefault("scope", i)
+            if isinstance(a, ast.Try) and any(src(s_) == "self._owner = None" for s_ in a.finalbody) \
+                    and any(y in ast.walk(s_) for s_ in a.body):
+                idx.setdefault("try", i)
+            if isinstance(a, ast.If) and not in_reentry and "lock" not in idx:
+                idx.setdefault("cond", i)
+        ok = ("lock" in idx and "scope" in idx and "try" in idx and idx["scope"] < idx["try"] < idx["lock"]
+              and "cond" not in idx)
+        out.append(ob(f"{P}.exclusive_resolution/locked-entry@L{y.lineno}", ok,
+                      "the caller's block runs inside `with self.resolution_scope()` inside `try/finally: self._owner = "
+                      "None` inside `async with self._resolution_lock()`, unconditionally" if ok else
+                      f"the yield at line {y.lineno} is not (lock > try/finally owner reset > resolution scope > yield): "
+                      f"found {sorted(idx)} in nesting order {sorted(idx, key=idx.get)}", y.lineno))
+    # the owner is recorded under the lock only, and as the current task
+    for n in ast.walk(ci.node):
+        if isinstance(n, (ast.Assign, ast.AnnAssign)):
+            tgts = n.targets if isinstance(n, ast.Assign) else [n.target]
+            if any(src(t) == "self._owner" for t in tgts) and n.value is not None and src(n.value) != "None":
+                fn = next((f for f in ci.methods.values() if n in ast.walk(f.node)), None)
+                pr = parents(fn.node) if fn else {}
+                held = fn is ex and src(n.value) in task_names and any(
+                    isinstance(a, ast.AsyncWith) and any(src(it.context_expr) == LOCK for it in a.items)
+                    for a in ancestors(n, pr))
+                out.append(ob(f"{P}/owner-set-under-lock@L{n.lineno}", held,
+                              f"`{src(n)}` at line {n.lineno}: the owner is {'the current task, recorded while the lock is held' if held else 'NOT recorded under the lock as the current task'}",
+                              n.lineno))
+    # the lock is taken by `async with` only: it is released exactly by the task that holds it
+    manual = [n for n in ast.walk(ci.node) if isinstance(n, ast.Call) and isinstance(n.func, ast.Attribute)
+              and n.func.attr in ("acquire", "release", "locked")]
+    out.append(ob(f"{P}/lock-taken-by-async-with", not manual,
+                  "no manual acquire() / release() / locked() on the manager's lock" if not manual else
+                  f"manual lock handling at line(s) {[n.lineno for n in manual]}: a waiter cancelled in acquire() must "
+                  f"not release or clear the owner", manual[0].lineno if manual else 0))
+    # the bookkeeping is touched only by the code under contract
+    allowed = {"__init__", "_get", "resolution_scope"}
+    for name, fi in ci.methods.items():
+        for n in ast.walk(fi.node):
+            if isinstance(n, ast.Attribute) and n.attr in ("_resolving", "_resolution_cache", "_resolution_depth") \
+                    and name not in allowed:
+                out.append(ob(f"{P}.{name}/bookkeeping-confined:{n.attr}@L{n.lineno}", False,
+                              f"{cls}.{name} touches {n.attr} (line {n.lineno}) outside _get / resolution_scope", n.lineno))
+    out.append(ob(f"{P}/bookkeeping-confined", not any("bookkeeping-confined:" in o["id"] for o in out),
+                  "_resolving / _resolution_cache / _resolution_depth are used only in __init__, _get, resolution_scope"))
+    # _get is reached only through get, inside the exclusive section; get is nothing but that section
+    g = ci.methods.get("get")
+    body = [s_ for s_ in (g.node.body if g else []) if not (isinstance(s_, ast.Expr) and isinstance(s_.value, ast.Constant))]
+    ok = (len(body) == 1 and isinstance(body[0], ast.AsyncWith) and len(body[0].items) == 1
+          and src(body[0].items[0].context_expr) == "self.exclusive_resolution()")
+    out.append(ob(f"{P}.get/is-its-exclusive-section", ok,
+                  "get() is `async with self.exclusive_resolution(): <section get#with1>`" if ok else
+                  "get() is not a single `async with self.exclusive_resolution()` block", g.lineno if g else 0))
+    for name, fi in ci.methods.items():
+        pr = parents(fi.node)
+        for n in ast.walk(fi.node):
+            if isinstance(n, ast.Call) and src(n.func) == "self._get":
+                held = name == "get" and any(
+                    isinstance(a, ast.AsyncWith) and any(src(it.context_expr) == "self.exclusive_resolution()" for it in a.items)
+                    for a in ancestors(n, pr))
+                out.append(ob(f"{P}.{name}/_get-under-exclusive@L{n.lineno}", held,
+                              f"`self._get(...)` at line {n.lineno} of {name} is "
+                              f"{'inside' if held else 'OUTSIDE'} get()'s exclusive section", n.lineno))
+    # resolution_scope() is entered only by exclusive_resolution, anywhere in the package
+    import os
+    pkg_dir = os.path.dirname(m.path) if hasattr(m, "path") else None
+    scope_calls = []
+    roots = []
+    for mod_name in (module, step_module):
+        try:
+            roots.append(repo.module(mod_name))
+        except Exception:
+            pass
+    for mm in roots:
+        tree = mm.tree if hasattr(mm, "tree") else ast.parse(mm.text)
+        pr = parents(tree)
+        for n in ast.walk(tree):
+            if isinstance(n, ast.Call) and isinstance(n.func, ast.Attribute) and n.func.attr == "resolution_scope":
+                fn = next((a for a in ancestors(n, pr) if isinstance(a, (ast.FunctionDef, ast.AsyncFunctionDef))), None)
+                scope_calls.append((mm.name, fn.name if fn else "<module>", n.lineno))
+    bad = [c for c in scope_calls if not (c[0] == module and c[1] == "exclusive_resolution")]
+    out.append(ob(f"{P}/scope-entered-only-under-the-lock", not bad and bool(scope_calls),
+                  f"resolution_scope() is entered at {scope_calls}; allowed: exclusive_resolution only" , 0))
+    # the step-level call site resolves all of a step's resources inside ONE exclusive section
+    sm = repo.module(step_module)
+    pf = sm.functions.get("partial")
+    if pf is None:
+        out.append(ob(f"{step_module}.partial/exists", False, "the step-level call site is gone"))
+    else:
+        pr = parents(pf.node)
+        gets = [n for n in ast.walk(pf.node) if isinstance(n, ast.Call) and isinstance(n.func, ast.Attribute)
+                and n.func.attr in ("get", "_get") and src(n.func.value).endswith("_resource_manager")]
+        for n in gets:
+            held = any(isinstance(a, ast.AsyncWith) and any(
+                src(it.context_expr).endswith("_resource_manager.exclusive_resolution()") for it in a.items)
+                for a in ancestors(n, pr))
+            loops = [a for a in ancestors(n, pr) if isinstance(a, (ast.For, ast.While, ast.AsyncFor))]
+            # one section for the whole step: the section encloses the loop over the step's resources
+            around = held and all(any(isinstance(b, ast.AsyncWith) and any(
+                src(it.context_expr).endswith("_resource_manager.exclusive_resolution()") for it in b.items)
+                for b in ancestors(lp, pr)) for lp in loops)
+            out.append(ob(f"{step_module}.partial/one-exclusive-resolution-per-step@L{n.lineno}", held and around,
+                          f"`{src(n)[:60]}` at line {n.lineno} runs {'inside' if held else 'OUTSIDE'} "
+                          f"`async with ..._resource_manager.exclusive_resolution()`"
+                          f"{'' if around or not held else ', but the section is entered per resource, not per step'}",
+                          n.lineno))
+        out.append(ob(f"{step_module}.partial/resolves-through-the-manager", bool(gets),
+                      f"{len(gets)} call(s) of the manager's get() in partial"))
+    return out
